@@ -73,6 +73,24 @@ add("C25", EX, "Every pipeline of depth <= 2 (thorough <= 3) over a 50-step alph
 add("C30", EX, "Every program of depth <= 2 (thorough <= 3) over the operations the array expression engine implements, on every chunking of five small shapes and seven base kinds, is executed by NumPy, by the classic engine and - in a child interpreter with array.query-planning enabled - by the expression engine; values, dtype, shape, lazy chunks and per-block shapes of the optimized/lowered expression are compared.", "5/C30", ARR_NOTE + " The expression engine runs in a child interpreter started with DASK_ARRAY__QUERY_PLANNING=True (handshake asserts the engine and the dask tree).",
     "bounded exhaustive program enumeration, three-way differential (NumPy / classic engine / expression engine)")
 
+DF_NOTE = "Trusted: pandas 3.0 on the whole frame as reference; the hollow pyarrow stand-in (mc/shims) only makes dask.dataframe importable and raises on any real pyarrow use (such cases are counted out_of_scope); sync scheduler; known findings matched by narrow (operation, failure-class, input-class) keys."
+add("C53", MC, "(h) Breadth-first search over ALL histories (depth 8/10) of create / pickle / copy / deepcopy / dumps / loads / delete / acquire / release on real SerializableLock objects (<= 4 live handles, 2 pickled blobs) against a lock-class-per-token model, deduplicated on model AND real state (lock-object partition, registry membership); (t) ALL interleavings of 2 and 3 logical threads contending on copies at lock-operation granularity.", "5/C53", "Trusted: the per-token class model; logical threads stepped at lock-operation granularity (a real free-running 4-thread run is a conformance pass).",
+    "explicit-state BFS over operation histories + exhaustive interleaving exploration of logical threads on the real lock objects")
+add("C19", EX, "Every chunking of every broadcast-compatible small shape pair x operators/ufuncs x all dtype pairs x dask/NumPy/scalar operand kinds is executed on real dask and compared exactly (values, dtype, block shapes) with the same NumPy call; plus unary ufuncs, where, ufunc where=/out=, astype, clip.", "5/C19", ARR_NOTE,
+    "bounded exhaustive differential enumeration against NumPy")
+add("C24", EX, "Every chunking of small 1-d to 4-d shapes x the full argument alphabet of each structural operation (reshape targets, axes, widths, pad modes, index vectors, shuffle groupings) is executed on real dask and compared exactly with NumPy, including lazy chunks against computed block shapes.", "5/C24", ARR_NOTE,
+    "bounded exhaustive differential enumeration against NumPy")
+add("C28", EX, "Every relation of the statement (same seed => same bits across rebuild / threads / reverse completion order / block-alone / recomputation; unseeded arrays distinct and independent; choice(replace=False) draws distinct members) is evaluated on the real dask.array.random code for an exhaustively enumerated small scope of seeds, APIs, distributions, shapes and all chunkings.", "5/C28", ARR_NOTE,
+    "bounded exhaustive enumeration with metamorphic determinism/independence oracles and a controlled-executor reverse-order schedule")
+add("C29", EX, "Every (chunking, region, lock, mode, scheduler) combination of a stated small scope is executed on the real da.store against a NumPy reference assignment (cells outside the region untouched, nothing written before a deferred compute); completion orders of the threaded scheduler are enumerated to one deviation with the controlled executor; to_npy_stack/from_npy_stack round trips for every chunking x axis.", "5/C29", ARR_NOTE,
+    "bounded exhaustive enumeration against a NumPy reference target with bounded completion-order exploration")
+add("C31", EX, "Each tensor routine (tensordot, dot, matmul, outer, vdot, inner, einsum) is executed for every chunking of an enumerated set of shapes and axes specs and compared exactly with NumPy; qr and svd are checked against their defining equations for every chunking of small matrices.", "5/C31", ARR_NOTE,
+    "bounded exhaustive enumeration against NumPy with algebraic-identity oracles for the decompositions")
+add("C46", EX, "Exhaustive small-scope exploration of the real dask.dataframe rolling / cumulative / shift / fill / map_overlap code: every partitioning with truthful known divisions (empty partitions included) x NaN-run placements x window/periods/limit alphabets, compared with pandas on the unpartitioned frame.", "5/C46", DF_NOTE,
+    "bounded exhaustive differential enumeration against pandas")
+add("C47", EX, "CSV half only (parquet needs the real pyarrow library, absent here): every file of a small CSV grammar plus hand-written corner files x every blocksize, and every partitioning x every to_csv layout read back, compared with pandas.", "5/C47 and section 6", DF_NOTE + " The parquet half of the statement is NOT covered (pyarrow cannot be installed).",
+    "bounded exhaustive differential enumeration against pandas (all blocksizes, all partitionings)")
+
 
 def build():
     checks = []
